@@ -230,7 +230,7 @@ def analyse(U, j, a, b, lvl_pt, R1, R2, replay):
     return vio, ("tied" if tied else "ok")
 
 
-def explore(ctx, rs, om, buckets, sc, dist, cases, samples, max_cuts):
+def explore(ctx, rs, om, buckets, sc, dist, cases, samples, max_cuts, two_cases):
     vio = []
     rd = os.path.join(sc, "Rules", rs["name"])
     rulesets.write_ruleset(rs, rd)
@@ -296,7 +296,9 @@ def explore(ctx, rs, om, buckets, sc, dist, cases, samples, max_cuts):
                         if os.path.exists(f):
                             os.remove(f)
                     run_session(rs, rd, sav, False, quit_after=j + 1)
+                    state1 = read_omn(omn) if os.path.exists(omn) else None
                     R2q = run_session(rs, rd, sav, True, quit_after=q2)
+                    state2 = read_omn(omn) if os.path.exists(omn) else None
                     R3 = run_session(rs, rd, sav, True)
                     dist["two_cycle_histories"] += 1
                     evaluations += 1
@@ -313,6 +315,11 @@ def explore(ctx, rs, om, buckets, sc, dist, cases, samples, max_cuts):
                         continue
                     S3 = R3["stream"]
                     level_strings = set(stream[a:b])
+                    seg2x = [pt2 for (st2, pt2) in R2q["segments"] if st2 <= q2 - 1]
+                    if state1 is not None and state2 is not None and not (q2 > rem and seg2x and seg2x[-1][0][0] == "M"):
+                        two_cases.append({"om": om, "state1": state1, "inside": q2 <= rem, "state2": state2,
+                                          "third": None if R3["restored"] is None else S3[:R3["restored"]],
+                                          "replay": dict(replay, then_quit_after=q2)})
                     seg2 = [pt2 for (st2, pt2) in R2q["segments"] if st2 <= q2 - 1]
                     if q2 > rem and seg2 and seg2[-1][0][0] == "M":
                         dist["second_quit_in_another_markov_level"] += 1
@@ -342,22 +349,32 @@ HEADER = ["From Coq Require Import List Bool NArith ZArith.", "From Pcfg Require
           "From PcfgGen Require Import Consts_gen.", "Import ListNotations.", "Open Scope nat_scope."]
 
 
+def consts():
+    import consts.omen_gen as cg
+    return cg.extract()
+
+
+def coq_state(state):
+    T, ipc, lnc, tree, fg = state
+    return "((%d)%%Z, (%d, %d), (%d, %d), %s, %s)" % (T, ipc[0], ipc[1], lnc[0], lnc[1], omen_gen.ctree(tree), common.cbool(bool(fg)))
+
+
 def coq_resume_case(c):
-    T, ipc, lnc, tree, fg = c["state"]
-    st = "((%d)%%Z, (%d, %d), (%d, %d), %s, %s)" % (T, ipc[0], ipc[1], lnc[0], lnc[1], omen_gen.ctree(tree), common.cbool(bool(fg)))
+    st = coq_state(c["state"])
     return "(%s, (%d)%%Z, %d, %s, %s)" % (omen_gen.coq_model(c["om"]), c["T"], c["j"], st, omen_gen.cstrs(c["rest"]))
 
 
 def run(ctx):
     sc = common.scratch()
-    nrs = ctx.scale(14, 120)
+    nrs = ctx.scale(36, 300)
     max_cuts = ctx.scale(14, 60)
     dist = Counter()
     vio, cases, samples = [], [], []
+    two_cases = []
     evaluations = nontrivial = 0
     for i in range(nrs):
         rs, om, buckets = gen_case(ctx.rng, i)
-        v, e, n = explore(ctx, rs, om, buckets, sc, dist, cases, samples, max_cuts)
+        v, e, n = explore(ctx, rs, om, buckets, sc, dist, cases, samples, max_cuts, two_cases)
         vio += v
         evaluations += e
         nontrivial += n
@@ -383,6 +400,32 @@ def run(ctx):
                          "first: level %d cut %d state %r" % (idx, c["T"], c["j"], c["state"])))
         else:
             corr.append(("omen-resume:" + name, True, ""))
+    if two_cases:
+        nsh2 = min(len(two_cases), common.NCPU)
+        shards2 = []
+        for k in range(nsh2):
+            chunk = two_cases[k::nsh2]
+            src = list(HEADER)
+            src.append("Definition cases : list (omen * saved * bool * saved * option (list ostr)) := [")
+            src.append(";\n".join("(%s, %s, %s, %s, %s)" % (omen_gen.coq_model(c["om"]), coq_state(c["state1"]), common.cbool(c["inside"]),
+                                                             coq_state(c["state2"]),
+                                                             "None" if c["third"] is None else "(Some %s)" % omen_gen.cstrs(c["third"]))
+                                  for c in chunk))
+            src.append("].")
+            src.append("Eval vm_compute in (ofailing (fun c => match c with (G, s1, ins, s2, third) => check_two_cycle G s1 ins s2 third end) cases).")
+            shards2.append(("t%04d" % k, "\n".join(src)))
+        for name, idx, log in common.run_case_shards("C15b", shards2):
+            k = int(name[1:])
+            if idx is None:
+                corr.append(("session-two-cycle:" + name, False, log[-800:]))
+            elif idx:
+                c = two_cases[k::nsh2][idx[0]]
+                corr.append(("session-two-cycle:" + name, False, "session-level model (omen_guess_number %s removed) and implementation "
+                             "disagree on what the third run restores, cases %s; first: %s"
+                             % ("is" if consts()["omen_number_cleared"] else "is never", idx, json.dumps(c["replay"])[:500])))
+            else:
+                corr.append(("session-two-cycle:" + name, True, ""))
+    dist["coq_two_cycle_cases"] = len(two_cases)
     dist["coq_cases"] = len(cases)
     rule = ("generated rulesets with an 'M' base structure over a generated OMEN model (ngram 2-4) and 1-3 Markov levels of 1..60 "
             "strings; the uninterrupted session, then for EVERY guess j of every such level: quit after j (should_exit set from the "
